@@ -418,7 +418,31 @@ def conversion_cases(build):
             cases.append((f'{f}.from_u128:{le(v, 16)}', f'{f}:{le(v % FIELDS[F], nb)}', f'{F}::from({v}u128)'))
     return cases
 
+def bls_cases(build):
+    if build != 'ark': return []
+    from .poly import FIELDS
+    PPm = FIELDS['Fp']
+    cases = [('bls:gen', 'g1=true g2=true', 'engine generators equal the reference'), ('bls:frob', 'same', 'frobenius maps of Fp2/Fp6/Fp12 for k = 0..12 equal the reference')]
+    for k in (1, 2, 3, 12345, Q - 1, 2 ** 200 + 17):
+        cases.append((f'bls:mul,{le(k, 32)}', 'g1=true g2=true', f'[{k}]G1, [{k}]G2 equal the reference'))
+        cases.append((f'bls:cofactor,{le(k, 32)}', 'g1=true g2=true inverse=true', f'cofactor methods on [{k}]G'))
+    for a, b in ((1, 1), (2, 3), (12345, 6789)):
+        cases.append((f'bls:pair,{le(a, 32)},{le(b, 32)}', 'same=true nondegenerate=true', f'pairing e([{a}]G1, [{b}]G2) equals the reference'))
+    # encodings: infinity with x spelled as p (non-canonical), canonical infinity, x = p - 1 etc.
+    inf_flag = 0x40
+    for kind, n in (('g1', 48), ('g2', 96)):
+        canon = bytearray(n); canon[-1] |= inf_flag
+        cases.append((f'bls:deser,{kind},{bytes(canon).hex()}', 'same ok', f'{kind}: canonical point at infinity'))
+        nc = bytearray(PPm.to_bytes(48, 'little') + bytes(n - 48)) if kind == 'g2' else bytearray(PPm.to_bytes(48, 'little'))
+        nc[-1] |= inf_flag
+        cases.append((f'bls:deser,{kind},{bytes(nc).hex()}', 'same err', f'{kind}: infinity flag with x = p (non-canonical)'))
+        nc2 = bytearray((PPm + 1).to_bytes(48, 'little') + bytes(n - 48)); cases.append((f'bls:deser,{kind},{bytes(nc2).hex()}', 'same err', f'{kind}: x = p + 1'))
+    one_gt = bytearray((1).to_bytes(48, 'little') + bytes(48 * 11)); cases.append((f'bls:deser,gt,{bytes(one_gt).hex()}', 'same ok', 'GT: the element 1'))
+    bad_gt = bytearray((1).to_bytes(48, 'little') + PPm.to_bytes(48, 'little') + bytes(48 * 10)); cases.append((f'bls:deser,gt,{bytes(bad_gt).hex()}', 'same err', 'GT: 1 with a zero coefficient spelled as p'))
+    return cases + conversion_cases(build)[-120:]
+
 BATTERIES = {
+    'C16': lambda b: bls_cases(b),
     'C10': lambda b: field_cases(b),
     'C11': lambda b: conversion_cases(b),
     'C12': lambda b: decode_cases(b) + encode_cases(b)[:300] + elligator_cases(b) + group_cases(b)[:200] + smul_cases(b)[:150] + coherence_cases(b)[:150] + const_cases(b) + field_cases(b)[:400] + conversion_cases(b),
